@@ -93,9 +93,71 @@ pub fn exhaustive_count(tier: Tier) -> u64 {
     }
 }
 
+/// The typed boundary grid: [const_type T a; const_type T b; op; stack_value] for every base
+/// type, every pair of boundary literals of that type's width, every binary (and unary)
+/// operation, under 8 configurations (address size x byte order).
+pub const GRID_OPS: &[u8] = &[
+    0x1a, 0x1b, 0x1c, 0x1d, 0x1e, 0x21, 0x22, 0x24, 0x25, 0x26, 0x27, 0x29, 0x2a, 0x2b, 0x2c, 0x2d, 0x2e, 0x19, 0x1f, 0x20,
+];
+const GRID_VALS: u64 = 6;
+
+pub fn grid_count() -> u64 {
+    10 * GRID_VALS * GRID_VALS * GRID_OPS.len() as u64 * 8
+}
+
+pub fn grid_literal(ty_index: usize, v: u64, be: bool) -> Vec<u8> {
+    // widths of World::base_type(off) for off = 1..=10: see VALUE_TYPES[1 + off % 10]
+    let ty = crate::world::VALUE_TYPES[1 + ty_index % 10];
+    use gimli::ValueType::*;
+    let (w, bits): (usize, u64) = match ty {
+        F32 => (4, [0.0f32, 1.0, -1.0, 2.5, -1000.0, 1.0e9][v as usize].to_bits() as u64),
+        F64 => (8, [0.0f64, 1.0, -1.0, 2.5, -1000.0, 1.0e9][v as usize].to_bits()),
+        _ => {
+            let w = match ty {
+                I8 | U8 => 1,
+                I16 | U16 => 2,
+                I32 | U32 => 4,
+                _ => 8,
+            };
+            let top = 1u64 << (8 * w as u32 - 1);
+            (w, [0, 1, u64::MAX, top, top - 1, 2][v as usize])
+        }
+    };
+    let mut out = Vec::new();
+    for k in 0..w {
+        let sh = if be { 8 * (w - 1 - k) } else { 8 * k };
+        out.push((bits >> sh) as u8);
+    }
+    out
+}
+
 pub fn gen_case(tier: Tier, master: u64, i: u64) -> Case {
     let nex = exhaustive_count(tier);
     let mut c = Case::new("e3", "strict");
+    if i >= nex && i < nex + grid_count() {
+        let mut k = i - nex;
+        let cfg = k % 8;
+        k /= 8;
+        let op = GRID_OPS[(k % GRID_OPS.len() as u64) as usize];
+        k /= GRID_OPS.len() as u64;
+        let (vb, va) = (k % GRID_VALS, (k / GRID_VALS) % GRID_VALS);
+        let ty = 1 + (k / (GRID_VALS * GRID_VALS)) % 10;
+        let be = cfg / 4 == 1;
+        c.set("addr_size", [1i64, 2, 4, 8][(cfg % 4) as usize]);
+        c.set("be", be as i64);
+        c.set("version", 5);
+        c.set("world_seed", 1);
+        for v in [va, vb] {
+            let mut ins = Ins::u(0xa4, ty);
+            ins.bytes = grid_literal(ty as usize, v, be);
+            c.steps.push(ins_to_step(0, &ins));
+        }
+        c.steps.push(ins_to_step(0, &Ins::op(op)));
+        c.steps.push(ins_to_step(0, &Ins::op(0x9f)));
+        c.note = "typed_grid".into();
+        return c;
+    }
+    let i = if i >= nex { i - grid_count() } else { i };
     if i < nex {
         let alpha = alphabet();
         let a = alpha.len() as u64;
